@@ -16,18 +16,24 @@ from ..util import tmp_dir
 IMPORTS = ('phylib.io.datasets',)
 ACTIONS = ('PreCheck', 'Fetch1', 'Verify1', 'Fetch2', 'Verify2')
 GOOD = b'good-bytes' * 300      # > 1024 bytes: several iter_content chunks
-BAD = b'bad!' * 700
+BAD = b'bad!' * 750                 # (the SAME length as GOOD: a size check cannot tell them apart)
+BIG = 2 ** 20 + 2100               # bodies larger than the checksum's read block (1 MiB)
 URL = 'http://verif.invalid/data/file.bin'
 SUM_GOOD = hashlib.md5(GOOD).hexdigest()
 
 
-def call(ctx, d, prior, script, md5s, good=None, latin1=False):
+def call(ctx, d, prior, script, md5s, good=None, latin1=False, big=False, head=True):
     """One real download_file call against a scripted server. Returns (reqs, status, file).
     good: the published body (default GOOD; b'' = the published file is EMPTY); latin1: the checksum file names the
     file with a non-ASCII character and is served as Latin-1 bytes."""
     import responses
     from phylib.io.datasets import download_file
     GOOD_ = GOOD if good is None else good
+    BAD_ = BAD
+    if big:
+        # both bodies are larger than 1 MiB and differ only AFTER the first MiB
+        GOOD_ = (GOOD * (BIG // len(GOOD) + 1))[:BIG]
+        BAD_ = GOOD_[:2 ** 20 + 50] + b'X' * (BIG - 2 ** 20 - 50)
     SUM_ = hashlib.md5(GOOD_).hexdigest()
     p = d / 'file.bin'
     if p.exists():
@@ -35,7 +41,7 @@ def call(ctx, d, prior, script, md5s, good=None, latin1=False):
     if prior == 'valid':
         p.write_bytes(GOOD_)
     elif prior == 'corrupt':
-        p.write_bytes(BAD)
+        p.write_bytes(BAD_)
     log = []
     it = iter(script)
     mit = iter(md5s)
@@ -48,7 +54,7 @@ def call(ctx, d, prior, script, md5s, good=None, latin1=False):
             raise ConnectionError('script exhausted')
         if r == 'e404':
             return (404, {}, b'')
-        return (200, {}, dict(good=GOOD_, corrupt=BAD, trunc=GOOD[:1500], empty=b'')[r])
+        return (200, {}, dict(good=GOOD_, corrupt=BAD_, trunc=GOOD[:1500], empty=b'')[r])
 
     def md5_cb(req):
         log.append('md5')
@@ -64,6 +70,9 @@ def call(ctx, d, prior, script, md5s, good=None, latin1=False):
         return (200, {}, text + '  file.bin\n')
 
     with responses.RequestsMock(assert_all_requests_are_fired=False) as rs:
+        if head:
+            # the server answers HEAD with the size of the published file (used for the progress report only)
+            rs.add(responses.HEAD, URL, headers={'Content-Length': str(len(GOOD_))}, status=200)
         rs.add_callback(responses.GET, URL, callback=data_cb)
         rs.add_callback(responses.GET, URL + '.md5', callback=md5_cb)
         try:
@@ -120,6 +129,9 @@ def run(ctx):
                 variant = dict(latin1=(j % 3 == 0))
                 if j % 5 == 0 and not ({'empty', 'trunc'} & set(case['script'])):
                     variant['good'] = b''
+                elif j % 7 == 0 and not ({'empty', 'trunc'} & set(case['script'])):
+                    variant['big'] = True
+                variant['head'] = bool(j % 2)
                 with ctx.guard('replay', case):
                     reqs, status, fin = call(ctx, d, case['prior'], case['script'], case['md5s'], **variant)
                 if ctx.abort:
@@ -143,7 +155,8 @@ def run(ctx):
                                       case['prior'], case['script'], case['md5s'], reqs, status, fin,
                                       case['reqs'], case['status'], case['file']),
                                   dict(case=case, observed=dict(reqs=reqs, status=status, file=fin),
-                                       variant=dict(latin1=variant['latin1'], empty_published='good' in variant)))
+                                       variant=dict(latin1=variant['latin1'], empty_published='good' in variant,
+                                                    big=bool(variant.get('big')), head=variant['head'])))
                 if j % 97 == 1:
                     ctx.sample(case)
             path.unlink()
@@ -188,7 +201,7 @@ def run(ctx):
 def replay(ctx, doc):
     c = doc['case'].get('case') or doc['case'].get('record')
     v = doc['case'].get('variant') or {}
-    kw = dict(latin1=bool(v.get('latin1')))
+    kw = dict(latin1=bool(v.get('latin1')), big=bool(v.get('big')), head=bool(v.get('head', True)))
     if v.get('empty_published'):
         kw['good'] = b''
     with tmp_dir(ctx) as d:
